@@ -377,7 +377,7 @@ def main():
             if full:
                 s_consts = dict(consts, MaxExec=8, MaxStmts=3)
                 rs = tlc.run('MC.tla', 's.cfg', tag='c20s', files=dict(files, **{'s.cfg': cfg_text(s_consts, view=False, overrides=ov, invariants=False)}),
-                             simulate={'num': 30 if c.quick else 150}, depth=9, seed=c.seed + sel, timeout=900)
+                             simulate={'num': 30 if c.quick else 60}, depth=9, seed=c.seed + sel, timeout=900)
                 if not rs.ok:
                     tlc.cleanup(rs)
                     c.inconclusive('TLC -simulate (%s) failed: %s\n%s' % (tag, rs.error or rs.violated, rs.output[-1500:]))
@@ -421,7 +421,7 @@ def main():
         w_consts = dict(CacheSize=2, MaxBytes=0, MaxExec=6, MaxStmts=6, FullUpTo=0)
         files = {'MC.tla': mc_module('{}', a_values, '{"oneshot", "cached"}', extra=W_EXTRA),
                  'w.cfg': cfg_text(w_consts, view=False, spec='MCSpecW')}
-        rw = tlc.run('MC.tla', 'w.cfg', tag='c20w', files=files, simulate={'num': 150 if c.quick else 1000}, depth=7, seed=c.seed, timeout=1200)
+        rw = tlc.run('MC.tla', 'w.cfg', tag='c20w', files=files, simulate={'num': 120 if c.quick else 800}, depth=7, seed=c.seed, timeout=1200)
         if not rw.ok:
             tlc.cleanup(rw)
             c.inconclusive('TLC -simulate (wide) failed: %s\n%s' % (rw.error or rw.violated, rw.output[-1500:]))
